@@ -25,6 +25,7 @@
 EXTENDS FedHeader, TLC
 
 CONSTANTS Methods, URIs, OriginShapes, DestShapes, Spellings, Bodies, Styles, KeyVals, Cfgs, DestOwns,
+          Entries,        \* how the request is sent (subset of {"direct", "client"})
           NKeys,          \* numbers of key IDs the origin signs with (subset of {1, 2})
           Knowns,         \* which signing keys the receiver knows
           TamperKinds,    \* the tamperings explored
@@ -46,14 +47,21 @@ BaseKnown  == "both"
 \*   expboth    expired_ts in the past AND valid_until_ts in the future (an expired_ts at or before the time of
 \*              receipt means not valid, whatever valid_until_ts says)
 \*   unknown    no record                                            wrongkey  another public key
-ValidKVs == {"valid", "validfar", "expfuture"}
+\* the key ring beyond its database (a key fetcher) and its error paths:
+\*   fetched    no record in the database, the fetcher supplies a valid one   (valid)
+\*   refreshed  lapsed record in the database, the fetcher supplies a valid one   (valid)
+\*   fetcherr   no record, the fetcher fails                                   (not valid)
+\*   dberror    the database fails: no key at all can be established          (not valid, for every key)
+ValidKVs == {"valid", "validfar", "expfuture", "fetched", "refreshed"}
 
 \* origin names that are not valid server names.  "invalid" is a mixed class; the others are one
 \* grammar violation each and are explored on the otherwise unvaried request (they cost two deviations):
 \* bracketed IPv4 without / with port, port > 65535, port of more than five digits, signed port (- / +),
 \* empty host, host with an illegal character (_ / space / slash), unbalanced bracket, 256-character DNS name
 ExtraInvalidOrigins == {"inv_brk4", "inv_brk4port", "inv_portbig", "inv_port6", "inv_portneg", "inv_portplus",
-                        "inv_emptyhost", "inv_underscore", "inv_space", "inv_slash", "inv_bracket", "inv_long"}
+                        "inv_emptyhost", "inv_underscore", "inv_space", "inv_slash", "inv_bracket", "inv_long",
+                        \* not even safe inside the quoted string of the header: must not be emitted as is
+                        "inv_quote", "inv_backslash"}
 InvalidOrigins == {"invalid"} \cup ExtraInvalidOrigins
 
 AllTamperKinds ==
@@ -61,7 +69,12 @@ AllTamperKinds ==
      "body", "body_ws", "body_drop", "nonutf8", "ctype_text", "ctype_none", "ctype_param",
      "sig_flip", "drop_sig", "key_other", "drop_key", "scheme", "dup_header", "second_origin",
      "origin_case", "dest_case", "second_case",
-     "no_header", "extra_bearer"}
+     "no_header", "extra_bearer",
+     "split_header", "scheme_case", "sig_respell", "body_notjson", "body_readerr"}
+
+\* tamperings on which the property sentence is silent (is "X-MATRIX" the X-Matrix scheme? is a signature in
+\* padded / URL-safe base64 the signature?): the verdict is left open, non-interference is still demanded
+OpenKinds == {"scheme_case", "sig_respell"}
 
 \* the wire component a tampering rewrites; two tamperings of one component are one tampering
 Component(k) ==
@@ -69,9 +82,10 @@ Component(k) ==
       [] k = "uri" -> "uri"
       [] k \in {"origin", "drop_origin", "origin_case"} -> "horigin"
       [] k \in {"dest_local", "dest_foreign", "drop_dest", "dest_case"} -> "hdest"
-      [] k \in {"body", "body_ws", "body_drop", "nonutf8"} -> "body"
+      [] k \in {"body", "body_ws", "body_drop", "nonutf8", "body_notjson", "body_readerr"} -> "body"
       [] k \in {"ctype_text", "ctype_none", "ctype_param"} -> "ctype"
-      [] k \in {"sig_flip", "drop_sig"} -> "hsig"
+      [] k \in {"sig_flip", "drop_sig", "sig_respell"} -> "hsig"
+      [] k \in {"scheme", "scheme_case"} -> "hscheme"
       [] k \in {"key_other", "drop_key"} -> "hkey"
       [] OTHER -> k
 
@@ -88,9 +102,12 @@ vars == <<phase, req, signed, wire, applied, rcv, out>>
 None == [none |-> TRUE]
 
 \* deviations of a request / an emit style from the base scenario
-ReqDev(r) == (IF r.m = BaseMethod THEN 0 ELSE 1) + (IF r.u = BaseURI THEN 0 ELSE 1)
+ReqDev(r) == (IF r.entry = "client" THEN 1      \* (a client method fixes method and URI class: one deviation in all)
+              ELSE (IF r.m = BaseMethod THEN 0 ELSE 1) + (IF r.u = BaseURI THEN 0 ELSE 1))
      + (IF r.os = BaseShape THEN 0 ELSE IF r.os \in ExtraInvalidOrigins THEN 2 ELSE 1) + (IF r.ds = BaseShape THEN 0 ELSE 1)
      + (IF r.osp = "lower" THEN 0 ELSE 1) + (IF r.dsp = "lower" THEN 0 ELSE 1)
+     + (IF r.body \in {"none", "obj", "nonutf8"} \/ r.entry = "client" THEN 0 ELSE 1)
+CfgDev(cfg) == IF cfg \in {"single", "multi"} THEN 0 ELSE 1
 StyleDev(st) == IF st = BaseStyle THEN 0 ELSE 1
 NkDev(nk) == IF nk = 1 THEN 0 ELSE 1
 
@@ -99,12 +116,19 @@ NkDev(nk) == IF nk = 1 THEN 0 ELSE 1
 CaseShapes == {"dns", "port", "ipv6"}
 
 \* ------------------------------------------------------------------ sender
-Compose(m, u, os, osp, ds, dsp, down, b) ==
+\* entry: "direct" = NewFederationRequest / SetContent / Sign / HTTPRequest called directly;
+\*        "client" = the same request sent by a FederationClient method (SendTransaction, GetEvent,
+\*                   LookupRoomAlias, MakeJoin), which fixes method, URI class and body
+\* ds = "origin": the receiver's primary name is the origin's own name (a server talking to itself)
+Compose(m, u, os, osp, ds, dsp, down, b, entry) ==
     /\ phase = "init"
     /\ osp = "mixed" => os \in CaseShapes
     /\ dsp = "mixed" => ds \in CaseShapes
-    /\ ReqDev([m |-> m, u |-> u, os |-> os, ds |-> ds, osp |-> osp, dsp |-> dsp]) <= Budget   \* nothing beyond the budget is ever received
-    /\ req' = [m |-> m, u |-> u, os |-> os, osp |-> osp, ds |-> ds, dsp |-> dsp, down |-> down, body |-> b]
+    /\ ds = "origin" => os \notin InvalidOrigins
+    /\ entry = "client" => \/ m = "PUT" /\ u = "plain" /\ b = "obj"
+                           \/ m = "GET" /\ u \in {"plain", "query", "escape"} /\ b = "none"
+    /\ ReqDev([m |-> m, u |-> u, os |-> os, ds |-> ds, osp |-> osp, dsp |-> dsp, body |-> b, entry |-> entry]) <= Budget   \* nothing beyond the budget is ever received
+    /\ req' = [m |-> m, u |-> u, os |-> os, osp |-> osp, ds |-> ds, dsp |-> dsp, down |-> down, body |-> b, entry |-> entry]
     /\ phase' = "composed"
     /\ UNCHANGED <<signed, wire, applied, rcv, out>>
 
@@ -114,6 +138,7 @@ BodyVal(b) == CASE b = "none" -> "none" [] b = "nonutf8" -> "X" [] OTHER -> "B"
 Sign(nk) ==
     /\ phase = "composed"
     /\ ReqDev(req) + NkDev(nk) <= Budget
+    /\ req.entry = "client" => nk = 1           \* a client signs with its one identity
     /\ signed' = [m |-> "M", u |-> "U", o |-> "O", d |-> req.down, b |-> BodyVal(req.body), nk |-> nk]
     /\ phase' = "signed"
     /\ UNCHANGED <<req, wire, applied, rcv, out>>
@@ -124,7 +149,7 @@ Emit(style) ==
     /\ wire' = [method |-> signed.m, uri |-> signed.u, body |-> signed.b, ws |-> FALSE,
                 ctype |-> IF signed.b = "none" THEN "absent" ELSE "json",
                 scheme |-> "X-Matrix", origin |-> signed.o, dest |-> signed.d, key |-> "K", sig |-> "S0", nk |-> signed.nk,
-                dup |-> FALSE, second |-> FALSE, secondc |-> FALSE, nohdr |-> FALSE, bearer |-> FALSE, style |-> style]
+                dup |-> FALSE, second |-> FALSE, secondc |-> FALSE, split |-> FALSE, respell |-> FALSE, nohdr |-> FALSE, bearer |-> FALSE, style |-> style]
     /\ phase' = "sent"
     /\ UNCHANGED <<req, signed, applied, rcv, out>>
 
@@ -148,6 +173,11 @@ Tamper(k) ==
            [] k = "dest_local"   -> [wire EXCEPT !.dest = IF @ = "P" THEN "S" ELSE "P"]
            [] k = "dest_foreign" -> [wire EXCEPT !.dest = "F2"]
            [] k = "drop_dest"    -> [wire EXCEPT !.dest = "-"]
+           [] k = "split_header" -> [wire EXCEPT !.split = TRUE]
+           [] k = "scheme_case"  -> [wire EXCEPT !.scheme = "X-MATRIX"]
+           [] k = "sig_respell"  -> [wire EXCEPT !.respell = TRUE]
+           [] k = "body_notjson" -> [wire EXCEPT !.body = "T"]
+           [] k = "body_readerr" -> [wire EXCEPT !.body = "E"]
            [] k = "body"         -> [wire EXCEPT !.body = "B2"]
            [] k = "body_ws"      -> [wire EXCEPT !.ws = TRUE]
            [] k = "body_drop"    -> [wire EXCEPT !.body = "none"]
@@ -203,7 +233,19 @@ HeaderK(w, o, key, sig) ==
     LET vals == [n \in Known |-> CASE n = "origin" -> o [] n = "destination" -> w.dest
                                    [] n = "key" -> key [] n = "sig" -> sig]
         list == Join(w.style, NameOrder(w.style), vals)
-    IN <<Tok("scheme", w.scheme), Tok("sp", IF w.style = "spaces" THEN "  " ELSE " ")>> \o list
+        \* style "extra": parameters no receiver knows, before and after
+        pre  == IF w.style = "extra" THEN <<Tok("name", "foo"), Tok("eq", "="), Tok("b", "bar"), Tok("comma", ",")>> ELSE <<>>
+        post == IF w.style = "extra" THEN <<Tok("comma", ","), Tok("name", "realm"), Tok("eq", "="), Tok("q", "")>> ELSE <<>>
+    IN <<Tok("scheme", w.scheme), Tok("sp", IF w.style = "spaces" THEN "  " ELSE " ")>> \o pre \o list \o post
+
+\* the same header cut at the comma after its second parameter into two field lines (what an intermediary that
+\* treats Authorization as a list field might do): the second line starts with a parameter, not with a scheme
+SplitHeader(w, o) ==
+    LET vals == [n \in Known |-> CASE n = "origin" -> o [] n = "destination" -> w.dest
+                                   [] n = "key" -> w.key [] n = "sig" -> w.sig]
+        ord == NameOrder(w.style)
+    IN << <<Tok("scheme", w.scheme), Tok("sp", " ")>> \o Join(w.style, SubSeq(ord, 1, 2), vals),
+          Join(w.style, SubSeq(ord, 3, 4), vals) >>
 
 Header(w, o) == HeaderK(w, o, w.key, w.sig)
 
@@ -213,7 +255,7 @@ Bearer == <<Tok("scheme", "Bearer"), Tok("sp", " "), Tok("b", "c2VjcmV0")>>
 Headers(w) ==
     (IF w.bearer THEN <<Bearer>> ELSE <<>>)
     \o (IF w.nohdr THEN <<>>
-        ELSE <<Header(w, w.origin)>>
+        ELSE (IF w.split THEN SplitHeader(w, w.origin) ELSE <<Header(w, w.origin)>>)
              \* one header per signature: the second key's header shares scheme, origin and destination with
              \* the first (tamperings of those rewrite both), key / signature tamperings hit the first only
              \o (IF w.nk = 2 THEN <<HeaderK(w, w.origin, "Kb", "S0b")>> ELSE <<>>)
@@ -224,17 +266,23 @@ Headers(w) ==
 \* ---------------------------------------------------------------- receiver
 OriginValid(o) == o = "O2" \/ (o \in {"O", "Oc"} /\ req.os \notin InvalidOrigins)
 \* (a multi-homed receiver also lists the other spellings of its names: only the signature can refuse those)
-Owned(d, cfg)  == d = "P" \/ (cfg = "multi" /\ d \in {"S", "Pc", "Sc"})
+\* receiver configurations: single (no local-name function: the default name only), singlefn (a function that
+\* knows the default name only), multi (several local names), any / nobody (a function that says yes / no to all)
+Owned(d, cfg)  == CASE cfg = "any" -> TRUE
+                    [] cfg = "nobody" -> FALSE
+                    [] cfg = "multi" -> d \in {"P", "S", "Pc", "Sc"}
+                    [] OTHER -> d = "P"
 JSONType(c)    == c \in {"json", "jsonparam"}
-UTF8(b)        == b \in {"B", "B2"}
+UTF8(b)        == b \in {"B", "B2"}        \* readable, UTF-8 and JSON ("T": text that is not JSON, "E": read error)
 \* the key database: (O, K) in state kv; (O2, K) a valid key of the other server; nothing else
 \* (the key of O is also filed under the other spelling Oc)
 \* which of the signing keys the receiver has a record of: known \in {"both", "first", "second", "neither"};
 \* the record of Kb, if any, is valid
 KeyValidNow(o, key, kv, known) ==
-    \/ o \in {"O", "Oc"} /\ key = "K" /\ known \in {"both", "first"} /\ kv \in ValidKVs
-    \/ o \in {"O", "Oc"} /\ key = "Kb" /\ known \in {"both", "second"}
-    \/ o = "O2" /\ key = "K"
+    /\ kv # "dberror"
+    /\ \/ o \in {"O", "Oc"} /\ key = "K" /\ known \in {"both", "first"} /\ kv \in ValidKVs
+       \/ o \in {"O", "Oc"} /\ key = "Kb" /\ known \in {"both", "second"}
+       \/ o = "O2" /\ key = "K"
 \* does signature sg, presented with key ID key, verify for the received fields f
 SigVerifies(key, sg, f) ==
     /\ f = [m |-> signed.m, u |-> signed.u, o |-> signed.o, d |-> signed.d, b |-> signed.b]
@@ -265,7 +313,10 @@ Verdict(w, cfg, kv, known) ==
 Receive(cfg, kv, known) ==
     /\ phase = "sent"
     /\ signed.nk = 1 => known = BaseKnown         \* (with one signing key "K unknown" is the key state "unknown")
-    /\ Dev + Cardinality(applied) + (IF kv = BaseKV THEN 0 ELSE 1) + (IF known = BaseKnown THEN 0 ELSE 1) <= Budget
+    \* a receiver that calls none of its names local, given a request without destination: its default name is
+    \* its own by definition and not by its function - the property sentence does not decide
+    /\ cfg = "nobody" => "drop_dest" \notin applied
+    /\ Dev + Cardinality(applied) + (IF kv = BaseKV THEN 0 ELSE 1) + (IF known = BaseKnown THEN 0 ELSE 1) + CfgDev(cfg) <= Budget
     /\ rcv' = [cfg |-> cfg, kv |-> kv, known |-> known]
     /\ out' = Verdict(wire, cfg, kv, known)
     /\ phase' = "received"
@@ -276,9 +327,9 @@ Init == /\ phase = "init" /\ req = None /\ signed = None /\ wire = None
 
 Next == \/ /\ phase = "init"       \* (guards repeated outside the quantifiers: TLC evaluates them first)
            /\ \E m \in Methods, u \in URIs, os \in OriginShapes, ds \in DestShapes, down \in DestOwns, b \in Bodies,
-                 osp \in Spellings, dsp \in Spellings :
+                 osp \in Spellings, dsp \in Spellings, entry \in Entries :
                  /\ (ds = "invalid" => down = "F")       \* a receiver owns no invalid name
-                 /\ Compose(m, u, os, osp, ds, dsp, down, b)
+                 /\ Compose(m, u, os, osp, ds, dsp, down, b, entry)
         \/ \E nk \in NKeys : Sign(nk)
         \/ /\ phase = "signed"
            /\ \E st \in Styles : Emit(st)
@@ -308,8 +359,9 @@ NoEffect(k) ==
 
 \* the receiver has a valid record of at least one of the keys the origin signed with
 SomeSigningKeyValid ==
-    \/ rcv.known \in {"both", "first"} /\ rcv.kv \in ValidKVs
-    \/ signed.nk = 2 /\ rcv.known \in {"both", "second"}
+    /\ rcv.kv # "dberror"
+    /\ \/ rcv.known \in {"both", "first"} /\ rcv.kv \in ValidKVs
+       \/ signed.nk = 2 /\ rcv.known \in {"both", "second"}
 
 \* accepted at the named destination when sent as signed
 Complete ==
@@ -320,9 +372,9 @@ Complete ==
 
 \* the refusal clauses of the property sentence, one by one
 RefuseForeign   == (Done /\ ~Owned(signed.d, rcv.cfg) /\ applied \cap {"drop_dest", "dest_local", "dest_case"} = {}) => ~out.accept
-RefuseNoHeader  == (Done /\ applied \cap {"no_header", "scheme", "drop_origin", "drop_key", "drop_sig", "second_origin", "second_case"} # {}) => ~out.accept
+RefuseNoHeader  == (Done /\ applied \cap {"no_header", "scheme", "split_header", "drop_origin", "drop_key", "drop_sig", "second_origin", "second_case"} # {}) => ~out.accept
 RefuseBadOrigin == (Done /\ req.os \in InvalidOrigins /\ "origin" \notin applied) => ~out.accept
-RefuseBadBody   == (Done /\ wire.body # "none" /\ (wire.ctype \in {"text", "absent"} \/ wire.body \in {"X", "X2"})) => ~out.accept
+RefuseBadBody   == (Done /\ wire.body # "none" /\ (wire.ctype \in {"text", "absent"} \/ wire.body \in {"X", "X2", "T", "E"})) => ~out.accept
 RefuseBadKey    == (Done /\ ~SomeSigningKeyValid) => ~out.accept
 RefuseChanged   == (Done /\ applied \cap {"method", "uri", "origin", "dest_local", "dest_foreign", "body", "nonutf8", "origin_case", "dest_case"} # {}) => ~out.accept
 RefuseBadSig    == (Done /\ signed.nk = 1 /\ applied \cap {"sig_flip", "key_other"} # {}) => ~out.accept
